@@ -1,0 +1,5 @@
+//go:build !verif
+
+package jd
+
+func verifReadTransition(state int, header byte, flushed bool) {}
